@@ -43,6 +43,11 @@ META = {
     "assumptions": ["Q, P symmetric positive semidefinite, R symmetric positive definite (hypotheses of the PSD / "
                     "invertibility theorems)", "k > -n", "pinv S = S^-1 for invertible S; msqrt M (msqrt M)^T = M",
                     "the system's f, g are differentiable and NLS.A / NLS.C return their Jacobians at the prior mean"],
+    "decided_by_streams": [
+        "statelessness / atomicity / argument resolution of the REAL filter objects (object reuse, copies, failing calls, per-call "
+        "sources of Q, R, k, t) is decided by the history streams (run, pf-corr); the Lean lemmas run_append, run_last_call, "
+        "call_resolution_independent, failed_call_is_no_call, runEKFobj_eq, runUKFobj_eq hold by construction of the model and only "
+        "say what the model means by those words"],
     "partial": ["PF Monte-Carlo convergence rate: no theorem (probabilistic limit); decided statistically by the pf-stat "
                 "stream (6.5-sigma band, N = 1e3..1e6, verdict only when the effective sample size N/E[w~^2] >= 200). The "
                 "deterministic skeleton (weights, resampling intervals and their Lebesgue measure, moments, PSD) is proved.",
@@ -146,6 +151,13 @@ def gen_run(rng: random.Random, quick: bool, force=None):
     c["extreme"] = force.get("extreme", rng.choice(["-"] * 5 + EXTREMES))
     # hardening pass 2: grad modes, keyword/positional passing and k types per call, a failing call in the middle of the
     # history, a copy of the filter object taking over for two calls, outputs scribbled over after every call
+    # pass 4: a user's subclass of the system and of the filter class; a large system clock (above 2^24, a UNIX epoch) with a
+    # system that uses the time through an exact remainder; the process default dtype flipped around some calls
+    c["subclass"] = force.get("subclass", rng.random() < 0.3)
+    c["clock"] = force.get("clock", rng.choice([None, None, None, 2 ** 24 + 1, 2 ** 24 + 3, 1_700_000_003]))
+    if c["clock"] is not None:
+        c["timevar"] = True
+    c["flip_default"] = force.get("flip_default", rng.random() < 0.3)
     c["grad"] = force.get("grad", "mixed")
     c["fail_at"] = force.get("fail_at", rng.choice([None, None, 0, 1, 2]))
     c["fail_kind"] = force.get("fail_kind", rng.choice(["callback-f", "callback-g"]))
@@ -153,7 +165,7 @@ def gen_run(rng: random.Random, quick: bool, force=None):
         c["fail_skip"] = force["fail_skip"]
     c["fork_at"] = force.get("fork_at", rng.choice([None, None, 1, 2]))
     c["fork_kind"] = force.get("fork_kind", rng.choice(["deepcopy", "state_dict"]))
-    c.update({kx: force[kx] for kx in ("cond", "scales", "xmag", "diag", "msqrt") if kx in force})
+    c.update({kx: force[kx] for kx in ("cond", "scales", "xmag", "diag", "msqrt", "ydev0") if kx in force})
     if c["extreme"] == "tiny-scale":
         c["scales"] = [1e-6, 1e-7, 1e5] if c["dtype"] == "float64" else [1e-3, 1e-4, 1e2]
     if c["extreme"] == "S-illcond":
@@ -161,12 +173,16 @@ def gen_run(rng: random.Random, quick: bool, force=None):
         c["scales"] = [1e-7, 1e-8, 1.0] if c["dtype"] == "float64" else [1e-4, 1e-5, 1.0]
         c["cond"] = 1e10 if c["dtype"] == "float64" else 1e4
         c["diag"] = False
+    if c["extreme"] == "Q-zero" and c["filter"] == "ukf":
+        c["extreme"] = "-"          # Q = 0 is positive semidefinite: fine for EKF; the UKF's Cholesky needs P- > 0
+    if c["extreme"] == "Q-zero":
+        c["T"] = min(c["T"], 8)
     if c["extreme"] == "x-huge":
         c["xmag"] = 1e6 if c["dtype"] == "float64" else 1e4
     return c
 
 
-EXTREMES = ["y-far", "x-huge", "u-huge", "k-edge", "A-zero", "C-zero", "tiny-scale", "S-illcond"]
+EXTREMES = ["y-far", "x-huge", "u-huge", "k-edge", "A-zero", "C-zero", "tiny-scale", "S-illcond", "Q-zero"]
 K_EDGE = [1e6, "-n+0.0001", 1e-9, -1e-9]
 
 
@@ -236,12 +252,30 @@ def corpus_runs(quick: bool):
         specs.append(dict(NICE, filter=flt, n=3, m=2, p=2, dtype="float64", nonlinear=False, T=4, store="both",
                           pass_seq=PASS_SEQ, t_mode="none", vary_qr=False, fail_at=2, fail_kind="callback-f", fail_skip=3,
                           fork_at=1, fork_kind="state_dict", k_seq=["none", 1.5, 0, "none"]))
+    # pass 4 corpus: clocks above 2^24 / a UNIX epoch with float32 data and a system using t % 7; a user's subclass of system and
+    # filter; the process default dtype flipped; exact coincidences (k = 0 exactly, P = s*I with equal eigenvalues, y exactly
+    # the predicted observation)
+    for flt in ("ekf", "ukf"):
+        for clk, dtn in ((2 ** 24 + 1, "float32"), (1_700_000_003, "float32"), (2 ** 24 + 3, "float64")):
+            specs.append(dict(NICE, filter=flt, n=2, m=1, p=2, dtype=dtn, nonlinear=False, T=3, store="none", t_mode="none",
+                              vary_qr=False, clock=clk, subclass=False, flip_default=False, k_seq=[1, "none", 1]))
+        specs.append(dict(NICE, filter=flt, n=2, m=2, p=2, dtype="float64", nonlinear=True, T=3, store="both", pass_seq=PASS_SEQ,
+                          t_mode="mixed", vary_qr=False, subclass=True, clock=None, flip_default=False, k_seq=[1, 0.5, "none"]))
+        for dtn in ("float32", "float64"):
+            specs.append(dict(NICE, filter=flt, n=3, m=1, p=2, dtype=dtn, nonlinear=False, T=2, store="none", t_mode="none",
+                              vary_qr=False, subclass=False, clock=None, flip_default=True, grad="plain", k_seq=[1, "none"]))
+        specs.append(dict(NICE, filter=flt, n=4, m=1, p=2, dtype="float64", nonlinear=(flt == "ukf"), T=2, store="none",
+                          t_mode="none", vary_qr=False, cond=1.0, diag=True, ydev0=True, subclass=False, clock=None,
+                          flip_default=False, k_seq=[0, 0]))
     # special sizes: p = 2n+1 (number of sigma points), n = m = p = 3, n = 1 with p = 3, all ones
     for flt in ("ekf", "ukf"):
         for (nn, mm, pp_) in ((2, 2, 5), (3, 3, 3), (1, 3, 3), (1, 1, 1), (6, 6, 6)):
             specs.append(dict(NICE, filter=flt, n=nn, m=mm, p=pp_, dtype="float64", nonlinear=(nn == 3), T=2, store="none",
                               t_mode="none", vary_qr=False, k_seq=[1, "none"]))
     for sp in specs:
+        sp.setdefault("subclass", False)
+        sp.setdefault("clock", None)
+        sp.setdefault("flip_default", False)
         sp.setdefault("fail_at", None)
         sp.setdefault("fork_at", None)
         sp.setdefault("arg_mode", "fresh")
@@ -261,10 +295,14 @@ def corpus_pf():
              (1, 1, False, "fresh", "none", None, None), (2, 40, False, "views", "both", None, None),
              (2, 17, False, "fresh", "both", None, None), (3, 5, True, "fresh", "Q", None, None),
              (2, 8, False, "fresh", "R", None, None), (2, 17, True, "fresh", "both", 1, 2),
-             (3, 3, False, "fresh", "none", None, None), (2, 2, False, "fresh", "none", None, None)]   # N = n
+             (3, 3, False, "fresh", "none", None, None), (2, 2, False, "fresh", "none", None, None),   # N = n
+             (2, 17, False, "fresh", "none", None, None), (2, 40, True, "fresh", "both", None, None)]
     for i, (n, N, nl, am, stv, fail_at, fork_at) in enumerate(table):
-        c = gen_pf(random.Random(130200 + i), False, True, {"dtype": "float64", "nonlinear": nl, "N": N, "store": stv,
-                                                            "fail_at": fail_at, "fork_at": fork_at})
+        late = i >= 10
+        c = gen_pf(random.Random(130200 + i), False, True, {"dtype": "float32" if i == 10 else "float64", "nonlinear": nl, "N": N,
+                                                            "store": stv, "fail_at": fail_at, "fork_at": fork_at,
+                                                            "subclass": i == 11, "clock": (2 ** 24 + 1) if i == 10 else None,
+                                                            "craft": late or i % 2 == 0, "pass_t": late or i % 3 == 0})
         c.update(seed=130200 + i, n=n, m=1, p=2, T=4 if i >= 4 else 3, corpus=i, arg_mode=am, qr_scales=[1.0, 2.0, 0.5, 1.0],
                  pass_seq=PASS_SEQ, timevar=True)
         out.append(c)
@@ -293,6 +331,8 @@ def materialise_run(c):
         st = {"u": uf.round_dt(uf.vec_mag(rng, m, [1e5] if ext == "u-huge" else [0.0, 0.1, 1.0, 1.0, 30.0]), dt),
               "ydev": [rng.gauss(0, 1) * rng.choice([1e4, 1e6] if ext == "y-far" else [0.0, 0.3, 1.0, 1.0, 3.0, 30.0])
                        for _ in range(p)]}
+        if c.get("ydev0"):
+            st["ydev"] = [0.0] * p
         st["drift"] = {"qr_scale": rng.choice([1.0, 2.0, 0.5]), "A_scale": rng.choice([1.0, 1.0, 0.5, -1.0]),
                        "c1_delta": uf.round_dt(uf.vec_mag(rng, n, [0.0, 0.5, 2.0]), dt)}
         if c["vary_qr"]:
@@ -309,6 +349,7 @@ def materialise_run(c):
             st["k"] = c["k"]
         st["pass_q"], st["pass_r"] = plan_pass(c, rng, j)
         st["positional"] = rng.random() < 0.3
+        st["flip_default"] = bool(c.get("flip_default")) and rng.random() < 0.6
         st["k_type"] = rng.choice(["python", "python", "tensor"])
         st["grad"] = (rng.choice(GRADS) if c.get("grad", "mixed") == "mixed" else c["grad"])
         if st["grad"] == "requires_grad" and c.get("fork_kind") == "deepcopy" and c.get("fork_at") is not None \
@@ -318,6 +359,13 @@ def materialise_run(c):
             st["grad"] = "no_grad"
         d["steps"].append(st)
     d["t_reset"] = rng.choice([1, 3, 7]) if c["t_mode"] == "reset" else 0
+    d["delta"] = uf.round_dt(uf.vec_mag(rng, p, [0.5, 2.0]), dt)
+    if ext == "Q-zero":
+        zq = [[0.0] * n for _ in range(n)]
+        d["Qc"], d["Qdecoy"] = zq, zq
+        for st in d["steps"]:
+            if "Q" in st:
+                st["Q"] = zq
     return d
 
 
@@ -326,6 +374,9 @@ def tol_pair(info, eps, extra=1.0):
     reference), numbers otherwise (UKF bound)"""
     kap = max(info["kappa"], 1.0)
     f = CTOL * eps * kap * extra
+    # absolute floor at the underflow threshold of the dtype (smallest normal number): below it the format has no relative
+    # accuracy at all (a covariance that decays towards 0 over a long run with Q = 0 gets there in float32)
+    tiny = CTOL * (1.1754944e-38 if eps > 1e-10 else 2.2250738585072014e-308)
     if "scalex_entries" in info:
         sx = torch.tensor(info["scalex_entries"], dtype=torch.float64)
         sP = torch.tensor(info["scaleP_entries"], dtype=torch.float64)
@@ -340,8 +391,8 @@ def tol_pair(info, eps, extra=1.0):
             dg = torch.maximum(dg, dg.max() * 2.0 ** -20)
             sP = torch.maximum(sP, dg.unsqueeze(-1) * dg.unsqueeze(-2))
             sx = torch.maximum(sx, sx.max() * 2.0 ** -20)
-        return f * sx + 1e-300, f * sP + 1e-300
-    return f * info["scalex"] + 1e-300, f * info["scaleP"] + 1e-300
+        return f * sx + tiny, f * sP + tiny
+    return f * info["scalex"] + tiny, f * info["scaleP"] + tiny
 
 
 def tmax(t) -> float:
@@ -461,7 +512,10 @@ def guarded_call(filt, mon, name, args, kw, st, is_ukf):
             pos.append(kw.pop("t", None))
             if is_ukf and "k" in kw:
                 pos.append(kw.pop("k"))
+    old_default = torch.get_default_dtype()
     try:
+        if st.get("flip_default"):       # the process-wide default dtype is the OTHER one than the operands'
+            torch.set_default_dtype(torch.float64 if x.dtype == torch.float32 else torch.float32)
         if gm == "no_grad":
             with torch.no_grad():
                 out = mon.call(name, filt, *pos, **kw)
@@ -470,14 +524,16 @@ def guarded_call(filt, mon, name, args, kw, st, is_ukf):
         return out, None
     except Exception as e:  # noqa: BLE001
         return None, f"{type(e).__name__}: {str(e)[:100]}"
+    finally:
+        torch.set_default_dtype(old_default)
 
 
 def make_filter(P_, c, model, Qs, Rs):
-    if c["filter"] == "ukf":
-        if c.get("msqrt") == "sym":
-            return P_.module.UKF(model, Q=Qs, R=Rs, msqrt=sym_sqrt)
-        return P_.module.UKF(model, Q=Qs, R=Rs)
-    return P_.module.EKF(model, Q=Qs, R=Rs)
+    base = P_.module.UKF if c["filter"] == "ukf" else P_.module.EKF
+    cls = type("User" + base.__name__, (base,), {}) if c.get("subclass") else base      # a user's subclass of the filter
+    if c["filter"] == "ukf" and c.get("msqrt") == "sym":
+        return cls(model, Q=Qs, R=Rs, msqrt=sym_sqrt)
+    return cls(model, Q=Qs, R=Rs)
 
 
 def run_gen(ctx: Ctx, c, lines, metas, verbose=False):
@@ -490,9 +546,26 @@ def run_gen(ctx: Ctx, c, lines, metas, verbose=False):
     T = lambda v: torch.tensor(v, dtype=dt)
     mode = c.get("arg_mode", "fresh")
     prm = {kx: v for kx, v in d["prm"].items()}          # current system parameters (drift in place in `inplace` mode)
-    model = uf.fam_class()(prm, dt)
-    if d["t_reset"]:
+    sub = bool(c.get("subclass"))
+    model = (uf.fam_class().Sub if sub else uf.fam_class())(prm, dt)
+    if sub:
+        model.delta = T(d["delta"])
+        ctx.count("run.user-subclass")
+    tmod = 7 if c.get("clock") is not None else 0
+    if tmod:
+        model.tmod = tmod
+        model.reset(c["clock"])
+        ctx.count(f"run.clock={c['clock']}")
+    elif d["t_reset"]:
         model.reset(d["t_reset"])
+
+    def eff(pm):
+        """the system the calls see: the subclass adds `delta` to the observation"""
+        if not sub:
+            return pm
+        pe = dict(pm)
+        pe["c2"] = [a + b2 for a, b2 in zip(pm["c2"], d["delta"])]
+        return pe
     stv = store_of(c)
     ctorQl = d["Qdecoy"] if stv in ("Q", "both") else None       # stored values always differ from the per-call ones
     ctorRl = d["Rdecoy"] if stv in ("R", "both") else None
@@ -576,7 +649,10 @@ def run_gen(ctx: Ctx, c, lines, metas, verbose=False):
         tval = st.get("t")
         t_arg = None if tval is None else torch.tensor(tval, dtype=dt)
         t_eff = float(model.systime) if tval is None else tval
-        fam = uf.MpFam(prm, t_eff)
+        if tmod:
+            t_eff = float(int(model.systime) % tmod) if tval is None else float(tval % tmod)
+        prmE = eff(prm)
+        fam = uf.MpFam(prmE, t_eff)
         # measurement: predicted observation (50 digits) + deviation scaled by the innovation spread
         try:
             ref0 = uf.mp_kalman_predict(fam, ul, Ql, Rl, xl, Pl)
@@ -615,7 +691,7 @@ def run_gen(ctx: Ctx, c, lines, metas, verbose=False):
             if merr is None or not merr.startswith("NotImplementedError"):
                 ctx.fail(stepcase, f"missing-covariance: {c['filter']} call without {miss} on an object that does not store it "
                                    f"{'returned a value' if merr is None else 'raised ' + merr[:60]} (documented: NotImplementedError)")
-            lines.append(call_line(c, prm, kspec, kval, t_eff, ul, yl, ctorQl, ctorRl,
+            lines.append(call_line(c, prmE, kspec, kval, t_eff, ul, yl, ctorQl, ctorRl,
                                    Ql if (st["pass_q"] and miss != "Q") else None, Rl if (st["pass_r"] and miss != "R") else None,
                                    xl, Pl))
             metas.append({"case": stepcase, "expect_model_err": "no-covariance"})
@@ -641,7 +717,7 @@ def run_gen(ctx: Ctx, c, lines, metas, verbose=False):
         uinfo = None
         if is_ukf:
             try:
-                uinfo = uf.np_ukf(uf.NpFam(prm, t_eff), kval, ul, yl, Ql, Rl, xl, Pl)
+                uinfo = uf.np_ukf(uf.NpFam(prmE, t_eff), kval, ul, yl, Ql, Rl, xl, Pl)
                 if not all(math.isfinite(v) for v in uinfo.values()):
                     uinfo = None
             except (np.linalg.LinAlgError, ZeroDivisionError, FloatingPointError):
@@ -675,7 +751,7 @@ def run_gen(ctx: Ctx, c, lines, metas, verbose=False):
                 ctx.fail(stepcase, f"raises: {c['filter']} raised at call {j} of the run (arguments: {mode}): {err}")
             else:
                 # non-linear UKF with negative centre weight: P^- may be indefinite; the model must fail too
-                lines.append(call_line(c, prm, kspec, kval, t_eff, ul, yl, ctorQl, ctorRl, Ql if st["pass_q"] else None,
+                lines.append(call_line(c, prmE, kspec, kval, t_eff, ul, yl, ctorQl, ctorRl, Ql if st["pass_q"] else None,
                                        Rl if st["pass_r"] else None, xl, Pl))
                 metas.append({"case": stepcase, "expect_err": err})
             break
@@ -748,7 +824,7 @@ def run_gen(ctx: Ctx, c, lines, metas, verbose=False):
                 ctx.fail(stepcase, f"psd: {c['filter']} call {j}: covariance asymmetry {asym:.3e}, min eigenvalue {lam:.3e} "
                                    f"(tol {tolPs:.3e})")
         # ---- model line (a)
-        lines.append(call_line(c, prm, kspec, kval, t_eff, ul, yl, ctorQl, ctorRl, Ql if st["pass_q"] else None,
+        lines.append(call_line(c, prmE, kspec, kval, t_eff, ul, yl, ctorQl, ctorRl, Ql if st["pass_q"] else None,
                                Rl if st["pass_r"] else None, xl, Pl))
         # a prior / predicted covariance that is singular at rounding level: the exact model may find no Cholesky
         # factor where the float code (or a user-supplied symmetric root) still returns one — not a verdict
@@ -828,8 +904,9 @@ def compare_runs(ctx: Ctx, lines, metas, verbose=False, reps=None):
 class RandRecorder:
     """wraps torch.rand for the duration of one PF call (pf.py looks `torch.rand` up at call time)"""
 
-    def __init__(self):
+    def __init__(self, craft=None):
         self.draws = []
+        self.craft = craft        # optional: overwrite some of the draws in place (draws at / next to decision boundaries)
 
     def __enter__(self):
         self.orig = torch.rand
@@ -837,6 +914,8 @@ class RandRecorder:
 
         def rand(*a, **k):
             out = rec.orig(*a, **k)
+            if rec.craft is not None:
+                rec.craft(out)
             rec.draws.append(out.detach().clone())
             return out
 
@@ -909,6 +988,12 @@ def gen_pf(rng: random.Random, stat: bool, quick: bool, force=None):
     c["scales"] = [10 ** rng.uniform(-2, 2) for _ in range(3)] if not f32 else [10 ** rng.uniform(-1, 1) for _ in range(3)]
     c["xmag"] = rng.choice([0.0, 1.0, 10.0])
     c["arg_mode"] = force.get("arg_mode", rng.choice(["fresh", "inplace", "views"]))
+    c["subclass"] = force.get("subclass", rng.random() < 0.3)
+    c["clock"] = force.get("clock", rng.choice([None, None, 2 ** 24 + 1, 1_700_000_003]))
+    if c["clock"] is not None:
+        c["timevar"] = True
+    c["craft"] = force.get("craft", rng.random() < 0.5)
+    c["pass_t"] = force.get("pass_t", rng.random() < 0.4)
     return c
 
 
@@ -937,6 +1022,7 @@ def materialise_pf(c):
     base = base if base > 1e-12 else 1.0
     d["Rc"] = mk(p, base * rng.choice([1.0, 3.0] if c["nonlinear"] else [0.5, 1.0, 3.0]))
     d["Qdecoy"], d["Rdecoy"] = mk(n, sQ * 3), mk(p, base * 4)
+    d["delta"] = uf.round_dt(uf.vec_mag(rng, p, [0.5, 2.0]), dt)
     d["steps"] = [{"u": uf.round_dt(uf.vec_mag(rng, m, [0.0, 0.1, 1.0]), dt),
                    "ydev": [rng.gauss(0, 1) * rng.choice([0.3, 1.0, 1.5]) for _ in range(p)],
                    "torch_seed": rng.randrange(1 << 31)} for _ in range(c["T"])]
@@ -977,7 +1063,15 @@ def pf_setup(c, d):
     P_ = uf.pp()
     dt = dt_of(c["dtype"])
     T = lambda v: torch.tensor(v, dtype=dt)
-    model = uf.fam_class()(d["prm"], dt)
+    sub = bool(c.get("subclass"))
+    model = (uf.fam_class().Sub if sub else uf.fam_class())(d["prm"], dt)
+    d["prmE"] = d["prm"]
+    if sub:
+        model.delta = T(d["delta"])
+        d["prmE"] = dict(d["prm"], c2=[a + b2 for a, b2 in zip(d["prm"]["c2"], d["delta"])])
+    if c.get("clock") is not None:
+        model.tmod = 7
+        model.reset(c["clock"])
     stv = store_of(c)
     ctorQ = T(d["Qdecoy"]) if stv in ("Q", "both") else None
     ctorR = T(d["Rdecoy"]) if stv in ("R", "both") else None
@@ -996,7 +1090,7 @@ def pf_measurement(fam, st, n, p, xl, Pl, Rl):
 
 
 def fpre_early(d, t_eff, rec, st):
-    return float(uf.NpFam(d["prm"], t_eff).fpre(rec["xp"].double().numpy(), np.array(st["u"])).max())
+    return float(uf.NpFam(d.get("prmE", d["prm"]), t_eff).fpre(rec["xp"].double().numpy(), np.array(st["u"])).max())
 
 
 def run_pf_corr(ctx: Ctx, c, lines, metas):
@@ -1030,14 +1124,39 @@ def run_pf_corr(ctx: Ctx, c, lines, metas):
                 ctx.fail(dict(c, step=j), f"copy: deepcopy of the PF object raised {type(e).__name__}: {str(e)[:80]}")
                 pf, model = original[0], original[1]
                 original = None
-        t_eff = float(model.systime)
-        fam = uf.MpFam(d["prm"], t_eff)
+        clock_before = int(model.systime)
+        t_eff = float(clock_before % 7) if c.get("clock") is not None else float(clock_before)
+        fam = uf.MpFam(d["prmE"], t_eff)
         Ql, Rl, passed = pf_qr(c, d, st, T)
         ctx.count(f"pf-corr.pass(Q,R)=({int(st['pass_q'])},{int(st['pass_r'])}).store={stv}")
         yl = uf.round_dt(pf_measurement(fam, st, n, p, xl, Pl, Rl), dt)
         x, P, y, u = feed.give("x", xl), feed.give("P", Pl), feed.give("y", yl), feed.give("u", st["u"])
         kw = {kx: feed.give(kx, v) for kx, v in passed.items()}
+        if c.get("pass_t") and j % 2 == 0:
+            # PF documents `t` as "set system timestamp"; on the unchanged tree it only reaches set_refpoint, the particles
+            # are propagated at the system clock — a `t` different from the clock must therefore not change the result
+            kw["t"] = torch.tensor(float(clock_before) + 5.5, dtype=dt)
+            ctx.count("pf-corr.t-passed")
         stepcase = dict(c, step=j)
+
+        def craft(out):
+            """draws at the ends of [0,1) and one ulp on either side of a cumulative-weight boundary (and above the last
+            cumulative weight when rounding leaves it below 1: the clamp)"""
+            if not c.get("craft") or out.shape != (N,) or N < 6 or "q" not in pf.rec:
+                return
+            cs = torch.cumsum(pf.rec["q"], dim=-1)
+            i = N // 2
+            one, zero = torch.ones((), dtype=out.dtype), torch.zeros((), dtype=out.dtype)
+            out[0] = 0.0
+            out[1] = torch.nextafter(one, zero)
+            if float(cs[i]) < 1.0:
+                out[2] = torch.nextafter(cs[i].to(out.dtype), one)
+            if float(cs[i]) > 0.0:
+                out[3] = torch.nextafter(cs[i].to(out.dtype), zero)
+            if float(cs[-1]) < float(torch.nextafter(one, zero)):
+                out[4] = torch.nextafter(cs[-1].to(out.dtype), one)
+            ctx.count("pf-corr.crafted-draws")
+
         gm = st.get("grad", "plain")
         ctx.count(f"pf-corr.grad={gm}")
         # ---- a failing call (measurement of the wrong length) must leave the objects — incl. the system clock — as they were
@@ -1056,7 +1175,7 @@ def run_pf_corr(ctx: Ctx, c, lines, metas):
                 ctx.fail(stepcase, "atomic: a failing PF call changed the filter's stored Q/R or particle count")
         torch.manual_seed(st["torch_seed"])
         pf.rec = {}
-        with RandRecorder() as rr:
+        with RandRecorder(craft) as rr:
             out, err = guarded_call(pf, mon, "pf.forward", [x, y, u, P], kw, st, False)
         if err is not None:
             ctx.fail(stepcase, f"raises: PF raised at call {j} (arguments: {mode}, grad mode: {gm}): {err}")
@@ -1093,8 +1212,8 @@ def run_pf_corr(ctx: Ctx, c, lines, metas):
                                               f"{[tuple(r.shape) for r in rr.draws]}")
             break
         r = draws[0]
-        if float(model.systime) != t_eff + 1:
-            ctx.disagree("pf-corr", stepcase, f"system clock after the call is {float(model.systime)}, model says {t_eff + 1}")
+        if int(model.systime) != clock_before + 1:
+            ctx.disagree("pf-corr", stepcase, f"system clock after the call is {int(model.systime)}, model says {clock_before + 1}")
         # documented particle model: prior N(x, n P)
         gx, gP = rec["gen_args"]
         if not (torch.equal(gx, x) and float((gP.double() - n * P.double()).abs().max()) <= 4 * eps * float((n * P.double()).abs().max())):
@@ -1106,26 +1225,47 @@ def run_pf_corr(ctx: Ctx, c, lines, metas):
             ctx.fail(stepcase, f"psd: PF covariance asymmetry {asym:.3e} min eigenvalue {lam:.3e}")
         # resampling picks existing particles
         xs, xr = rec["xs"], rec["xr"]
-        member = (xr.unsqueeze(1) == xs.unsqueeze(0)).all(dim=-1).any(dim=1)
-        if not bool(member.all()):
-            ctx.fail(stepcase, "resample-member: a resampled particle is not one of the propagated particles")
+        laws_only = bool(c.get("laws_only"))
+        # the selection rule on the code's own cumulative weights (torch.cumsum is the trusted kernel; the rule itself —
+        # first cumulative weight >= draw, clamped to the last particle — evaluated by numpy): exact, for every draw
+        cs_t = torch.cumsum(rec["q"], dim=-1)
+        idx_ref = torch.from_numpy(np.minimum(np.searchsorted(cs_t.numpy(), r.numpy(), side="left"), N - 1))
+        # at an exact tie (a draw equal to a cumulative weight — probability zero for a continuous draw) either neighbour is a
+        # valid sampler: the right-continuous rule is accepted there
+        idx_alt = torch.from_numpy(np.minimum(np.searchsorted(cs_t.numpy(), r.numpy(), side="right"), N - 1))
+        badsel = (xs[idx_ref] != xr).any(dim=-1) & (xs[idx_alt] != xr).any(dim=-1)
+        if bool(badsel.any()):
+            jb = int(badsel.nonzero()[0])
+            ctx.fail(stepcase, f"pf-resample: draw {jb} (r={float(r[jb])!r}) selected another particle than index {int(idx_ref[jb])} = "
+                               f"min(first i with cumsum(q)[i] >= r, N-1) (N={N}, last index selected: {bool((idx_ref == N - 1).any())})")
+        ctx.count("pf-corr.selected-last-particle" if bool((idx_ref == N - 1).any()) else "pf-corr.last-particle-not-selected")
         # margin of the discrete decision
         cs = torch.cumsum(rec["q"].double(), dim=-1)
-        margin = float((cs.unsqueeze(0) - r.double().unsqueeze(1)).abs().min())
-        lines.append(f"c13.pf {n} {m} {p} {N} 0:0 " + uf.step_tokens(d["prm"], t_eff, st["u"], yl, Ql, Rl, xl, Pl)
-                     + " " + common.wire_list(uf.flat(rec["xp"].double().tolist())) + " " + common.wire_list(r.double().tolist()))
+        margin = float((cs.unsqueeze(0) - r.double().unsqueeze(1)).abs().min()) if N <= 2048 else 0.0
+        if not laws_only:
+            lines.append(f"c13.pf {n} {m} {p} {N} 0:0 " + uf.step_tokens(d["prmE"], t_eff, st["u"], yl, Ql, Rl, xl, Pl)
+                         + " " + common.wire_list(uf.flat(rec["xp"].double().tolist())) + " " + common.wire_list(r.double().tolist()))
         ly, lye, lR = (a.double() for a in rec["lik_args"])
         le = ly - lye
         lRi = torch.linalg.inv(lR)
         maha = torch.einsum("ij,jk,ik->i", le, lRi, le)
         # absolute error of a logit: conditioning of the quadratic form + cancellation in e = y - g(xp)
-        gpre = torch.tensor(uf.NpFam(d["prm"], t_eff).gpre(rec["xp"].double().numpy(), np.array(st["u"])), dtype=torch.float64)
+        gpre = torch.tensor(uf.NpFam(d["prmE"], t_eff).gpre(rec["xp"].double().numpy(), np.array(st["u"])), dtype=torch.float64)
         epre = gpre.amax(dim=-1) + float(ly.abs().max())
-        fpre = float(uf.NpFam(d["prm"], t_eff).fpre(rec["xp"].double().numpy(), np.array(st["u"])).max())
+        fpre = float(uf.NpFam(d["prmE"], t_eff).fpre(rec["xp"].double().numpy(), np.array(st["u"])).max())
         dlogit = (le @ lRi).abs().sum(dim=-1) * epre
         # ---- the documented particle model, evaluated directly on what the real code handed between its own stages
         # (float64 numpy/torch, independent of the Lean model): weights = Gaussian likelihood of y, normalised;
         # resampling = first cumulative weight >= draw; estimate = mean, covariance = Q + mean of outer products
+        nfam = uf.NpFam(d["prmE"], t_eff)
+        xpn, un = rec["xp"].double().numpy(), np.array(st["u"])
+        fref, gref = torch.from_numpy(nfam.f(xpn, un)), torch.from_numpy(nfam.g(xpn, un))
+        ftol = CTOL * eps * torch.from_numpy(nfam.fpre(xpn, un)) + 1e-300
+        gtol = CTOL * eps * gpre + 1e-300
+        if bool(((rec["xs"].double() - fref).abs() > ftol).any()) or bool(((lye - gref).abs() > gtol).any()):
+            ctx.fail(stepcase, f"pf-propagate: the particles are not propagated / observed through the system at its clock "
+                               f"(t={t_eff}): max |xs - f(xp,u,t)| = {float((rec['xs'].double() - fref).abs().max()):.3e}, "
+                               f"max |ye - g(xp,u,t)| = {float((lye - gref).abs().max()):.3e} (N={N})")
         wref = torch.softmax(-maha / 2, dim=-1)
         dl0 = float(torch.linalg.cond(lR)) * (1.0 + maha / 2) + dlogit
         tolw0 = wref * (CTOL * eps * (dl0 + float(dl0[int(wref.argmax())]))) + 16 * eps * float(wref.max())
@@ -1133,10 +1273,6 @@ def run_pf_corr(ctx: Ctx, c, lines, metas):
             i0 = int(((rec["q"].double() - wref).abs() / tolw0).argmax())
             ctx.fail(stepcase, f"pf-weights: importance weight {i0} is {float(rec['q'][i0]):.6e}, the Gaussian likelihood of y "
                                f"gives {float(wref[i0]):.6e} (N={N}, args={mode})")
-        elif margin > float(tolw0.sum()) + 4 * eps:
-            idx0 = torch.searchsorted(torch.cumsum(wref, dim=-1), r.double()).clamp(max=N - 1)
-            if not torch.equal(xs[idx0], xr):
-                ctx.fail(stepcase, f"pf-resample: the resampled set is not xs[searchsorted(cumsum(q), r)] (N={N})")
         sx0 = max(float(xr.double().abs().max()), fpre_early(d, t_eff, rec, st)) + 1e-300
         mx0 = xr.double().mean(dim=0)
         ex0 = xr.double() - mx0
@@ -1146,9 +1282,10 @@ def run_pf_corr(ctx: Ctx, c, lines, metas):
             ctx.fail(stepcase, f"pf-moments: returned (x, P) is not (mean, Q + covariance) of the resampled particles: "
                                f"|dx|={float((x2.double() - mx0).abs().max()):.3e} |dP|={float((P2.double() - P0ref).abs().max()):.3e} "
                                f"(N={N})")
-        metas.append({"case": stepcase, "x": x2.detach().clone(), "P": P2.detach().clone(), "q": rec["q"], "xs": xs, "xr": xr,
-                      "margin": margin, "eps": eps, "scaleP": scaleP + fpre ** 2, "maha": maha, "dlogit": dlogit, "fpre": fpre,
-                      "kappaR": float(torch.linalg.cond(lR))})
+        if not laws_only:
+            metas.append({"case": stepcase, "x": x2.detach().clone(), "P": P2.detach().clone(), "q": rec["q"], "xs": xs, "xr": xr,
+                          "margin": margin, "eps": eps, "scaleP": scaleP + fpre ** 2, "maha": maha, "dlogit": dlogit, "fpre": fpre,
+                          "kappaR": float(torch.linalg.cond(lR))})
         if j == 0:
             ctx.sample(dict(c), cap=10)
         xl, Pl = x2.detach().double().tolist(), P2.detach().double().tolist()
@@ -1206,7 +1343,7 @@ def compare_pf(ctx: Ctx, lines, metas, verbose=False, reps=None):
 def lin_posterior(d, t_eff, st, y, n, xl, Pl, Rl):
     """exact posterior mean (and the per-sample variances of the estimator) of the documented particle model on an
     affine system: X ~ N(x, nP), y = g(X) + v, v ~ N(0, R), estimate E[f(X) | y]"""
-    fam = uf.MpFam(d["prm"], t_eff)
+    fam = uf.MpFam(d.get("prmE", d["prm"]), t_eff)
     xv, uv = uf.V(xl), uf.V(st["u"])
     A, C = fam.jf(xv, uv), fam.jg(xv, uv)
     S0 = n * uf.M(Pl)
@@ -1244,8 +1381,8 @@ def run_pf_stat(ctx: Ctx, c, verbose=False):
     model, pf, T = pf_setup(c, d)
     x, P = T(d["x0"]), T(d["P0"])
     for j, st in enumerate(d["steps"]):
-        t_eff = float(model.systime)
-        fam = uf.MpFam(d["prm"], t_eff)
+        t_eff = float(int(model.systime) % 7) if c.get("clock") is not None else float(model.systime)
+        fam = uf.MpFam(d.get("prmE", d["prm"]), t_eff)
         xl, Pl = x.double().tolist(), P.double().tolist()
         Ql, Rl, passed = pf_qr(c, d, st, T)
         kw = {kx: T(v) for kx, v in passed.items()}
@@ -1279,7 +1416,7 @@ def run_pf_stat(ctx: Ctx, c, verbose=False):
                 continue
         ctx.hist["pf-stat.maxN/ESS"] = max(ctx.hist.get("pf-stat.maxN/ESS", 0.0), cfac)
         sdev = math.sqrt(n * float(torch.tensor(Pl).abs().max()))
-        fpre0 = float(uf.NpFam(d["prm"], t_eff).fpre(np.abs(np.array(xl))[None, :] + 4 * sdev, np.array(st["u"])).max())
+        fpre0 = float(uf.NpFam(d.get("prmE", d["prm"]), t_eff).fpre(np.abs(np.array(xl))[None, :] + 4 * sdev, np.array(st["u"])).max())
         worst = 0.0
         # the band is a central-limit statement: it needs a sizeable effective sample (N/ESS = E[w~^2])
         verdict = N / max(cfac, 1.0) >= 200
@@ -1328,7 +1465,7 @@ def is_reference(c, d, fam, st, yl, xl, Pl, N, Rl):
     S0 = n * np.array(Pl)
     Lc = np.linalg.cholesky((S0 + S0.T) / 2)
     X = np.array(xl)[None, :] + g.standard_normal((Mref, n)) @ Lc.T
-    nf = uf.NpFam(d["prm"], float(fam.t))
+    nf = uf.NpFam(d.get("prmE", d["prm"]), float(fam.t))
     u = np.array(st["u"])
     fx, gx = nf.f(X, u), nf.g(X, u)
     Ri = np.linalg.inv(np.array(Rl))
@@ -1395,6 +1532,7 @@ def run(ctx: Ctx):
     for i in range(ctx.pick(12, 40)):
         run_pf_stat(ctx, gen_pf(rng, True, ctx.quick, forced[i] if i < len(forced) else None))
     f32_large(ctx)
+    pf_large_laws(ctx)
     witness_stream(ctx)
     t4 = time.time()
     ctx.notes.append(f"wall: runs {t1 - t0:.1f}s, pf-corr {t2 - t1:.1f}s, model driver {t3 - t2:.1f}s, pf-stat {t4 - t3:.1f}s")
@@ -1453,6 +1591,20 @@ def witness_stream(ctx: Ctx):
                            f"recursion gives x=-4, P=-2")
         if abs(mv[0] - xv) > tol or abs(mv[1] - Pv) > tol:
             ctx.disagree("witness", case, f"model gives x={mv[0]!r}, P={mv[1]!r}, implementation x={xv!r}, P={Pv!r}")
+
+
+def pf_large_laws(ctx: Ctx):
+    """particle counts around internal block sizes (2^14, 2^14+1, 2^16+1, ...): the deterministic laws of the documented particle
+    model (weights, selection rule incl. the LAST particle, moments) on what the real code hands between its stages — no model
+    run needed on 10^5 items"""
+    sizes = [16385, 65537] if ctx.quick else [16384, 16385, 32769, 65536, 65537, 131073]
+    for i, N in enumerate(sizes):
+        c = gen_pf(random.Random(130300 + i), False, True, {"dtype": "float64" if i % 2 == 0 else "float32", "nonlinear": False,
+                                                            "N": N, "store": "none", "fail_at": None, "fork_at": None,
+                                                            "arg_mode": "fresh", "craft": True, "subclass": False, "clock": None})
+        c.update(seed=130300 + i, n=2, m=1, p=2, T=1, laws_only=True, corpus=100 + i)
+        ctx.count(f"pf-large.N={N}")
+        run_pf_corr(ctx, c, [], [])
 
 
 def f32_large(ctx: Ctx):
